@@ -1,0 +1,18 @@
+//go:build verif
+
+package lexer
+
+// VerifBudgetExceeded is the panic value raised (build tag verif only) when a
+// single Lexer has been asked for far more tokens than any terminating parse
+// of its input can need. It turns a parser loop that is blind to EOF into a
+// deterministic, recoverable failure for the verification harness.
+const VerifBudgetExceeded = "verif: lexer token budget exceeded"
+
+type verifState struct{ n int }
+
+func (l *Lexer) verifTick() {
+	l.verif.n++
+	if l.verif.n > 32*len(l.input)+65536 {
+		panic(VerifBudgetExceeded)
+	}
+}
